@@ -57,12 +57,25 @@ def decodeOne (o : Obs) : Option Term :=
     | .layer c t => if c.name = o.ce then some t else none
     | _ => none
 
-/-- static files: additionally, the uncompressed execution decodes to the file content and
-declares a correct length -/
+/-- the client offers coding `c`: an Accept-Encoding element names it (token before any
+parameters, surrounding blanks ignored) without a zero quality value -/
+def offersCoding (ae : Bytes) (c : Coding) : Bool :=
+  (splitOn 44 ae).any fun elem =>
+    match splitOn 59 elem with
+    | [] => false
+    | tok :: params => trimSpace tok = c.name && !(params.any isZeroQ)
+
+/-- the coding a static response declares is one the client offered -/
+def siblingOffered (ae : Bytes) (ce : Bytes) : Bool :=
+  unencoded ce || [Coding.zstd, Coding.br, Coding.gzip].any (fun c => c.name = ce && offersCoding ae c)
+
+/-- static files: additionally, the uncompressed execution decodes to the file content, declares
+a correct length, and is coded only in a coding the client listed -/
 def staticVerdict (ae : Bytes) (content : Bytes) (g p : Obs) : String :=
   if p.status != 200 then "bad:status:existing file not served"
   else if decodeOne p != some (.raw content) then "bad:decoded-differs:the file server's response does not decode to the file"
   else if p.cl == .wrong then "bad:content-length:file server"
+  else if !siblingOffered ae p.ce then "bad:not-offered:precompressed sibling in a coding the client did not offer"
   else verdict ae g p
 
 /-- observation of a model response -/
